@@ -4,6 +4,7 @@ mod child;
 mod exec;
 mod generate;
 mod oracle;
+mod order;
 mod plan;
 mod sha256;
 mod shims;
@@ -153,6 +154,7 @@ fn run_line(group: &workload::Group, plan: &Plan, is_ref: bool, rec: &ExecRecord
         "clock_ns": rec.sim_clock_ns,
         "clock_reads": rec.clock_reads,
         "nviol": violations.len(),
+        "pairs": rec.conflicting_pairs_checked,
     })
 }
 
@@ -203,14 +205,35 @@ fn cmd_check(args: &[String]) {
         }
         let _ = std::fs::remove_dir_all(&sandbox);
         let t_run = real_now();
-        let (ref_res, _, _) = run_plan(&g.reference, &sandbox, true, false, &|_| vec![]);
-        let mut line = run_line(&g, &g.reference, true, &ref_res.rec, &[]);
+        let ref_prop = property.clone();
+        let (ref_res, _, _) = run_plan(&g.reference, &sandbox, true, false, &|rec| {
+            // the structural check needs no second run to compare with
+            if ref_prop == "C02" { oracle::c02_single(true, rec) } else { vec![] }
+        });
+        let mut line = run_line(&g, &g.reference, true, &ref_res.rec, &ref_res.violations);
         let ref_wall_ms = ((real_now() - t_run) * 1000.0) as u64;
         line["wall_ms"] = json!(ref_wall_ms);
         emit(line);
         if ref_res.rec.outcome.class == "harness" {
             emit(json!({"t": "harness", "group": g.index, "plan": g.reference, "detail": ref_res.rec.outcome.detail}));
             continue;
+        }
+        for viol in &ref_res.violations {
+            let sig: String = format!("{}|{}|{}", viol.property, viol.class, viol.detail.chars().filter(|c| !c.is_ascii_digit()).take(48).collect::<String>());
+            let n = seen_sigs.entry(sig).or_insert(0usize);
+            *n += 1;
+            if *n <= 3 && reported < max_viol {
+                reported += 1;
+                emit(json!({
+                    "t": "violation",
+                    "property": viol.property,
+                    "class": viol.class,
+                    "detail": viol.detail,
+                    "reference": g.reference,
+                    "plan": g.reference,
+                    "observed": {"outcome": ref_res.rec.outcome, "panics": ref_res.rec.panics, "steps": ref_res.rec.steps},
+                }));
+            }
         }
         let reference = ref_res.rec;
         // bounds for the variations scale with what the reference run needed
